@@ -16,6 +16,8 @@ OBLIGATIONS = [
   O('C20.c-simplifypath-5', 'c20_utils.cpp', 'harness_simplify', defs=['NPTS=5'], replace=PERP, olevel='INL', unwind=7, tiers='t', timeout=3000, bound='5 vertices', desc='as above'),
   O('C20.b-rdp-6', 'c20_utils.cpp', 'harness_rdp', defs=['NPTS=6'], replace=PERP, olevel='INL', unwind=7, unwindset=[RDPFN + ':5'], tiers='x', timeout=3000, bound='6 vertices', desc='as above'),
   O('C20.a-trimcollinear-4', 'c20_utils.cpp', 'harness_trimcollinear_closed', defs=['TN=4', 'TLIM=3'], olevel='INL', unwind=7, replace=APPC, backend=['kissat', 'cadical'], tiers='t', timeout=3000, bound='closed, 4 vertices on [0,3]^2', desc='signed area preserved; corners only and idempotent when the input has no repeats/reversals'),
+  O('C20.a-trimcollinear-4-unit', 'c20_utils.cpp', 'harness_trimcollinear_closed', defs=['TN=4', 'TLIM=1'], olevel='INL', unwind=7, replace=APPC, backend=['kissat', 'cadical'], tiers='q', timeout=900, bound='closed, 4 vertices on [0,1]^2 (repeats and reversals included)', desc='as above, all 256 vertex placements on the unit grid'),
+  O('C20.a-trimcollinear-5-unit', 'c20_utils.cpp', 'harness_trimcollinear_closed', defs=['TN=5', 'TLIM=1'], olevel='INL', unwind=8, replace=APPC, backend=['kissat', 'cadical'], tiers='t', timeout=3000, bound='closed, 5 vertices on [0,1]^2', desc='as above'),
   O('C20.d-stripduplicates', 'c20_utils.cpp', 'harness_stripdup', unwind=7, bound='4 vertices on [0,1]^2, open/closed', desc='no equal neighbours (cyclically if closed), first point kept'),
   O('C20.d-getbounds', 'c20_utils.cpp', 'harness_getbounds64', unwind=5, bound='3 vertices, all int64; empty path', desc='bounds are attained min/max; empty path gives the inverted rectangle'),
   O('C20.d-translate', 'c20_utils.cpp', 'harness_translate', unwind=5, bound='2 vertices, |values|<=2^61', desc='elementwise +dx,+dy'),
